@@ -116,6 +116,29 @@ def real_order(name, n, which, spy=False):
     return H.run(h, "harness.c13", "canon", funcs=FUNCS, modules=MODS, bv=w, timeout_ms=240000)
 
 
+def history(L, which):
+    """two consecutive calls with independent orders of the same byte length: the
+    second result must not depend on the first (no state carried between calls)"""
+    util = _util()
+    w = 8 * L + 16
+
+    def h():
+        lo = 2 if L == 1 else 256 ** (L - 1)
+        n0 = sym_int("n0", lo, 256 ** L - 1)
+        s0 = sym_int("s0", 1, 256 ** L - 1)
+        n = sym_int("n", lo, 256 ** L - 1)
+        s = sym_int("s", 1, 256 ** L - 1)
+        r = sym_int("r", 0, 255)
+        core.assume(sand(s0 < n0, s < n, r < n, r < n0))
+        H.inp("pre", dict(n=n0, s=s0, r=r))
+        H.inp("n", n); H.inp("s", s); H.inp("r", r); H.inp("which", which)
+        _check(util, r, s0, n0, which, True)
+        reach("second call")
+        _check(util, r, s, n, which, True)
+
+    return H.run(h, "harness.c13", "canon", funcs=FUNCS, modules=MODS, bv=w, timeout_ms=240000)
+
+
 def validation():
     util = _util()
     nat = loader.load_native().util
@@ -168,6 +191,9 @@ def jobs(tier, seed):
                 continue
             js.append(Job("sym/L%d/%s%s" % (L, which, "-spy" if spy else ""),
                           "harness.c13:sym_order", L=L, which=which, spy=spy))
+    for L in (1, 2, 14, 24, 32, 48, 66):
+        for which in ENCODERS:
+            js.append(Job("history/L%d/%s" % (L, which), "harness.c13:history", L=L, which=which))
     nat = loader.load_native()
     for c in nat.curves.curves:
         for which in ENCODERS:
@@ -180,6 +206,9 @@ def jobs(tier, seed):
 def replay_canon(inp):
     from ecdsa import util
     n, r, s, which = inp["n"], inp["r"], inp["s"], inp["which"]
+    if "pre" in inp:
+        p = inp["pre"]
+        getattr(util, "sigencode_%s_canonize" % which)(p["r"], p["s"], p["n"])
     out = getattr(util, "sigencode_%s_canonize" % which)(r, s, n)
     dec = dict(strings=util.sigdecode_strings, string=util.sigdecode_string, der=util.sigdecode_der)[which]
     r2, s2 = dec(out, n)
